@@ -22,7 +22,12 @@ def main(argv=None):
     if a.replay:
         env = dict(os.environ)
         env["PYTHONPATH"] = REPO + os.pathsep + VERIF
-        rc = subprocess.run([PY, a.replay], env=env).returncode
+        pr = subprocess.run([PY, a.replay], env=env, capture_output=True, text=True)
+        sys.stdout.write(pr.stdout)
+        sys.stderr.write(pr.stderr)
+        rc = pr.returncode
+        if rc == 1 and "MISMATCH" not in pr.stdout + pr.stderr:
+            rc = EXIT_INCONCLUSIVE          # the replay script crashed: nothing was reproduced
         if rc == 1:
             print(f"VIOLATION property={pid} replay={a.replay}")
         return rc
